@@ -144,7 +144,7 @@ Definition parse_float (l : str) : option Q :=
   | _, _, _ => None
   end.
 
-(* re.search(r'(?<=chr)(X|\d+)', path).group(): leftmost "chr" followed by X or digits *)
+(* re.search(r'(?<=chr)(X|\d+)', name).group(): leftmost "chr" followed by X or digits *)
 Fixpoint take_digits (l : str) : str :=
   match l with
   | c :: r => if is_digit c then c :: take_digits r else []
@@ -175,7 +175,9 @@ Record vin := mkvin {
   v_gens : list str;                       (* its remaining lines *)
   v_isdir : bool;                          (* os.path.isdir(mapdir) *)
   v_chroms : list str;                     (* requested chromosomes *)
-  v_files : list (str * list str);         (* glob('<mapdir>/*.map'): path, lines; glob order *)
+  v_files : list (str * list str);         (* glob('<mapdir>/*.map'): file NAME (os.path.basename), lines;
+                                              glob order.  The pinned tree applied the chr pattern to the whole
+                                              path: that behaviour is this model fed with paths instead of names *)
   v_popsize : Z;
   v_only_bp : bool;
   v_ref : option (list str);               (* sample names of the reference; None = unreadable *)
